@@ -231,7 +231,7 @@ class FJSPFileGenerator(Generator):
 
         files = [
             os.path.join(path, f)
-            for f in os.listdir(path)
+            for f in sorted(os.listdir(path))
             if os.path.isfile(os.path.join(path, f))
         ]
         assert len(files) > 0
